@@ -389,11 +389,12 @@ def git_status():
 
 def check_property(pid, spec, tier, replay=None, keep=False):
     t0 = time.time()
+    _build_cache.clear()  # binaries live in the per-property work dir
     base_seed = int(os.environ.get("VERIF_SEED", "1") or "1")
     work = os.path.join(WORKROOT, "%s-%d" % (pid, os.getpid()))
     shutil.rmtree(work, ignore_errors=True)
     os.makedirs(work)
-    evidence_path = os.path.join(VERIF, "evidence", pid + ".json")
+    evidence_path = os.path.join(os.environ.get("VERIF_EVIDENCE_DIR") or os.path.join(VERIF, "evidence"), pid + ".json")
     known = load_known(pid)
     known_fps = [k[0] for k in known]
     before = git_status()
@@ -457,7 +458,7 @@ def check_property(pid, spec, tier, replay=None, keep=False):
                     if r2.violation:
                         ff = json.load(open(r2.violation[0]))
                         h = hashlib.sha256(json.dumps(ff.get("case"), sort_keys=True).encode()).hexdigest()[:10]
-                        dst = os.path.join(VERIF, "replays", "%s-%s.json" % (pid, h))
+                        dst = os.path.join(os.environ.get("VERIF_REPLAY_OUT") or os.path.join(VERIF, "replays"), "%s-%s.json" % (pid, h))
                         os.makedirs(os.path.dirname(dst), exist_ok=True)
                         shutil.copy(r2.violation[0], dst)
                         violation = (dst, r2.violation[1], r2.violation[2])
@@ -466,6 +467,9 @@ def check_property(pid, spec, tier, replay=None, keep=False):
                 break
     except Undecided as e:
         undecided.append(str(e))
+    except Exception as e:  # a driver problem is never a verdict
+        import traceback
+        undecided.append("driver error: %s\n%s" % (e, traceback.format_exc()[-1500:]))
     after = git_status()
     if after != before:
         undecided.append("git status of %s changed during the run:\n%s" % (REPO, after))
